@@ -55,6 +55,12 @@ def check_twins(fx, rep, rule, only=None):
         if only is not None and x not in only:
             continue
         a, b = A.func(fx, "java", x), A.func(fx, "java", y)
+        if not b and (not a or x.startswith("byte_code_type")):
+            # the two copies were merged into one function that is handed the implementation: nothing to cross-reference (each
+            # implementation's use of the shared function is decided by the per-implementation rules)
+            n += 1
+            rep.ok(rule, "%s/twin/java::%s" % (rule, x), loc="src/java.rs", found="no twin: one shared function serves both implementations", nontrivial=False)
+            continue
         if len(a) != 1 or len(b) != 1:
             A.one(rep, rule, "twin java::" + x, [])
             continue
